@@ -160,4 +160,114 @@ Section Special.
       + intros _. right. intros x Hx. apply (Hnf g x); [|exact Hx].
         cbn [forallb] in Hsub. apply andb_true_iff in Hsub as [Hg _]. apply mem_id_elem, Hg.
   Qed.
+
+  (** ** [new_cyclic] (only the path that returns normally matters) *)
+  Lemma SatF_quiet m m' o : QuietD mu m m' -> SatF mu m o -> SatF mu m' o.
+  Proof.
+    intros (A1 & A2 & A3) HS HG. destruct (HS (A3 HG)) as (x & Hx & Hf). specialize (A2 o). rewrite Hx in A2.
+    destruct (get m' o) as [x'|]; [|discriminate]. cbn in A2. exists x'. split; [reflexivity|].
+    apply (isFresh_vb x x'); [congruence | exact Hf].
+  Qed.
+
+  Lemma d_cmd_new_cyclic self dst cls script sw m :
+    (cmd_new_cyclic K P rec self dst cls script sw m).2 = ONormal ->
+    Nd (length (heap m)) m (cmd_new_cyclic K P rec self dst cls script sw m).1.
+  Proof.
+    unfold cmd_new_cyclic. pose proof (NdX_refl mu None (length (heap m)) m) as HD0.
+    destruct (negb (k_weak K)); [intros _; fin3|].
+    assert (HQ1 : Quiet m (resolve self dst m).1) by lq.
+    pose proof (Nd_q mu None _ m m _ HD0 (Quiet_QuietD mu _ _ HQ1)) as HD1. pose proof (Quiet_len _ _ HQ1) as HL1.
+    destruct (resolve self dst m) as [m1 r]. cbn [fst snd] in *. destruct r as [r|]; [|intros _; fin3].
+    unfold new_node. cbv zeta.
+    set (x0 := Obj (hdr_new false) VLive BNotYet None cls false (replicate (c_nf (class_of P cls)) None)
+                   (replicate (c_nw (class_of P cls)) None) None false [] [] false).
+    set (o := length (heap m1)). set (n0 := length (heap m)) in *.
+    assert (Hno : (n0 <= o)%nat) by (unfold o; lia).
+    set (m2 := m1 <| heap ::= fun h => h ++ [x0] |>).
+    pose proof (NdX_trans mu None _ m m1 _ HD1 (Nd_new mu n0 m1 x0 eq_refl)) as HD2. fold m2 in HD2.
+    assert (Hx2 : get m2 o = Some x0) by apply get_new.
+    assert (HD3 : Nd n0 m (upd o (fun x => x <| o_vst := VUninit |>) m2)).
+    { eapply NdX_trans; [exact HD2|]. apply Nd_upd_own; [exact Hno|]. intros _ y _ [Hd _]. discriminate. }
+    assert (HS3 : SatF mu (upd o (fun x => x <| o_vst := VUninit |>) m2) o).
+    { intros _. eexists. split; [apply (get_upd_eq o _ m2 x0 Hx2) | right; reflexivity]. }
+    destruct (d_trigger K mu nfa rec HR n0 m _ o HD3 HS3) as (m4 & t & -> & HD4 & HS4).
+    destruct t; try discriminate.
+    assert (HD5 : Nd n0 m (box_alloc K o m4)).
+    { eapply NdX_trans; [exact HD4|]. apply Nd_alloc; [exact Hno|].
+      intros HG y Hy. destruct (HS4 HG) as (y' & Hy' & Hf). assert (y' = y) by congruence. subst y'. apply fresh_not_dropped, Hf. }
+    set (m5 := box_alloc K o m4) in *. clearbody m5. clear HD0 HD1 HD2 HD3 HD4 HS3 HS4.
+    set (m10 := emit _ _).
+    assert (HQ11 : QuietD mu m5 (tick KClosure m10).1) by (unfold m10; lqd).
+    pose proof (Nd_q mu None _ m m5 _ HD5 HQ11) as HD11.
+    destruct (tick KClosure m10) as [m11 boom]. cbn [fst snd] in *. clear HQ11. clearbody m10.
+    assert (H12 : exists m12 r', (if boom then (m11, raise m11) else rec (KScript None (script_of P script)) m11) = (m12, r')
+                     /\ Nd n0 m m12).
+    { destruct boom.
+      - exists m11, (raise m11). auto.
+      - assert (Hp : Pre2 (KScript None (script_of P script)) m11) by (cbn; intros Hn; apply script_nfa, Hprog, Hn).
+        pose proof (Nd_rec K mu nfa rec None n0 m m11 (KScript None (script_of P script)) HR eq_refl HD11 Hp) as HD12.
+        destruct (rec (KScript None (script_of P script)) m11) as [m12 r']. exists m12, r'. auto. }
+    destruct H12 as (m12 & r' & -> & HD12).
+    destruct r'; try discriminate.
+    assert (H13 : exists m13 r'', (if sw && bool_decide (0 < c_nw (class_of P cls))%nat
+                                   then match weak_clone (WTo o) m12 with
+                                        | Some m => (upd o (fun x => x <| o_wfields ::= <[0%nat := Some (WTo o)]> |>) m, ONormal)
+                                        | None => (m12, raise m12)
+                                        end
+                                   else (m12, ONormal)) = (m13, r'')
+                     /\ Nd n0 m m13).
+    { destruct (sw && bool_decide (0 < c_nw (class_of P cls))%nat); [|exists m12, ONormal; auto].
+      destruct (weak_clone (WTo o) m12) as [mc|] eqn:Ewc; [|exists m12, (raise m12); auto].
+      eexists _, ONormal. split; [reflexivity|].
+      eapply Nd_q; [exact HD12|]. apply QuietD_upd; [intros; reflexivity|].
+      eapply qd_weak_clone; [apply QuietD_refl | exact Ewc]. }
+    destruct H13 as (m13 & r'' & -> & HD13).
+    destruct r''; try discriminate. intros Hn.
+    assert (HD14 : Nd n0 m (upd o (fun x => x <| o_vst := VLive |>) m13)).
+    { eapply NdX_trans; [exact HD13|]. apply Nd_upd_own; [exact Hno|]. intros _ y _ [Hd _]. discriminate. }
+    set (m14 := upd o (fun x => x <| o_vst := VLive |>) m13) in *. clearbody m14. clear HD5 HD11 HD12 HD13.
+    clear Hn. repeat adv3; fin3.
+  Qed.
+
+  (** ** [Cleaner::register] *)
+  Lemma d_cmd_register self nd script c m :
+    (cmd_register K P rec self nd script c m).2 = ONormal ->
+    Nd (length (heap m)) m (cmd_register K P rec self nd script c m).1.
+  Proof.
+    unfold cmd_register. pose proof (NdX_refl mu None (length (heap m)) m) as HD0.
+    destruct (negb (k_clean K)); [intros _; fin3|].
+    assert (HQ1 : Quiet m (nresolve self nd m).1) by lq.
+    pose proof (Nd_q mu None _ m m _ HD0 (Quiet_QuietD mu _ _ HQ1)) as HD1. pose proof (Quiet_len _ _ HQ1) as HL1.
+    destruct (nresolve self nd m) as [m1 no]. cbn [fst snd] in *. destruct no as [o|]; [|intros _; fin3].
+    destruct (cslots m1 !! c); [|intros _; fin3]. destruct (get m1 o) as [x|] eqn:Hx; [|intros _; fin3].
+    destruct (negb (c_cleaner (class_of P (o_cls x))) || o_ismap x); [intros _; fin3|].
+    set (n0 := length (heap m)) in *.
+    match goal with |- (match ?E with pair _ _ => _ end).2 = _ -> _ => set (MID := E) end.
+    assert (Hmid : MID.2 = ONormal -> Nd n0 m MID.1.1).
+    { unfold MID. destruct (o_cleaner x) as [mo|]; [intros _; exact HD1|].
+      unfold new_map. cbv zeta.
+      set (x0 := Obj (hdr_new false) VLive BNotYet None 0 true [] [] None false [] [] false).
+      set (mo := length (heap m1)).
+      assert (Hno : (n0 <= mo)%nat) by (unfold mo; lia).
+      pose proof (NdX_trans mu None _ m m1 _ HD1 (Nd_new mu n0 m1 x0 eq_refl)) as HD2.
+      assert (HS2 : SatF mu (m1 <| heap ::= fun h => h ++ [x0] |>) mo).
+      { intros _. exists x0. split; [apply get_new | left; split; reflexivity]. }
+      destruct (d_trigger K mu nfa rec HR n0 m _ mo HD2 HS2) as (m3 & t & Et & HD3 & HS3).
+      fold x0 in Et |- *. fold mo in Et |- *. rewrite Et. clear Et.
+      destruct t.
+      - cbv zeta. assert (HD4 : Nd n0 m (box_alloc K mo m3)).
+        { eapply NdX_trans; [exact HD3|]. apply Nd_alloc; [exact Hno|].
+          intros HG y Hy. destruct (HS3 HG) as (y' & Hy' & Hf). assert (y' = y) by congruence. subst y'. apply fresh_not_dropped, Hf. }
+        destruct (get (box_alloc K mo m3) o ≫= o_cleaner) as [existing|].
+        + pose proof (Nd_rec K mu nfa rec None n0 m _ (KDropCc mo) HR eq_refl HD4 I) as HD5.
+          destruct (rec (KDropCc mo) (box_alloc K mo m3)) as [m4 r]. intros _. exact HD5.
+        + intros _. cbn [fst]. eapply Nd_q; [exact HD4 | lqd].
+      - destruct (unwinding (rec (KDropValue mo)) m3) as [m4 r] eqn:Eu. cbn [fst snd]. intros ->.
+        exfalso. apply (unwinding_not_normal (rec (KDropValue mo)) m3). rewrite Eu. reflexivity.
+      - discriminate.
+      - discriminate. }
+    destruct MID as [[m2 mo] r]. cbn [fst snd] in Hmid. destruct r; try discriminate.
+    specialize (Hmid eq_refl). intros _. clear HD0 HD1.
+    repeat adv3; fin3.
+  Qed.
 End Special.
